@@ -266,11 +266,11 @@ static std::string mode_tag(int cls, const Mode &m) { return std::string(CLS[cls
 static std::string fault_json(const std::string &kind, long off, long aux) { return J().kv("kind", kind).kv("off", off).kv("aux", aux).str(); }
 
 // emits a complete trace for the offline checker
-static void emit_trace(const CaseStat &cs, const std::string &sub, size_t sched, const std::string &judge, const std::string &fault, const std::vector<TEv> &pre, const std::vector<TEv> &evs, bool final_, bool cxx_ok) {
+static void emit_trace(const CaseStat &cs, const std::string &sub, size_t sched, const std::string &judge, const std::string &fault, const std::vector<TEv> &pre, const std::vector<TEv> &evs, bool final_, bool cxx_ok, const std::string &cxx_key = "") {
 	std::vector<TEv> all(pre); all.insert(all.end(), evs.begin(), evs.end());
 	record(J().kv("k", "trace").kv("cls", CLS[cs.cls]).kv("mode", cs.md.name()).kv("auth", cs.md.a).kv("enc", cs.md.e).kv("chunked", cs.md.c)
 	           .kv("family", cs.family).kv("sub", sub).kv("sched", sched_name(sched)).kv("judge", judge).raw("fault", fault.empty() ? "null" : fault)
-	           .kv("final", final_).kv("cxx_ok", cxx_ok).raw("ev", ev_json(all)).str());
+	           .kv("final", final_).kv("cxx_ok", cxx_ok).kv("cxx_key", cxx_key).raw("ev", ev_json(all)).str());
 	count("traces_emitted");
 }
 static bool want_trace(CaseStat &cs, const std::string &kind, int per_kind = 1) { int &n = cs.traced[kind]; if (n >= per_kind) return false; n++; return true; }
@@ -341,7 +341,7 @@ static bool run_split_sub(CaseStat &cs, const Tx &tx, const std::vector<TEv> &pr
 		              .raw("sent", seq_json(tx.plan[0])).raw("received", seq_json(rx.got[0])).kv("wire_hex", shorten(hex((const unsigned char *)W.data(), L), 2400)).str());
 		tr = true;
 	}
-	if (tr) emit_trace(cs, sub, aiounicast::aio_scheduler_direct, "nofault", "", pre, evs, true, ok);
+	if (tr) emit_trace(cs, sub, aiounicast::aio_scheduler_direct, "nofault", "", pre, evs, true, ok, key);
 	if (cs.sample.empty()) cs.sample = J().kv("class", CLS[tx.cls]).kv("mode", tx.md.name()).kv("family", cs.family).kv("sub", sub).arrn("cuts", cuts).kv("wire_len", (long)L).raw("sent", seq_json(tx.plan[0], 6)).raw("received", seq_json(rx.got[0], 6)).str();
 	return ok;
 }
@@ -464,7 +464,7 @@ static void case_long(CaseStat &cs, int cls, const Mode &md, size_t sched, Rng &
 			for (int l = 0; l < nl; l++) { w.raw(("sent" + std::to_string(l)).c_str(), seq_json(tx.plan[l], 12)); w.raw(("received" + std::to_string(l)).c_str(), seq_json(rx.got[l], 12)); w.kv(("n_sent" + std::to_string(l)).c_str(), (long)tx.plan[l].size()); w.kv(("n_received" + std::to_string(l)).c_str(), (long)rx.got[l].size()); }
 			violation(std::string("C13/") + CLS[cls] + "/nofault/" + key, what + " (3 links, scheduler " + sched_name(sched) + ")", w.str());
 		}
-		if (tr) emit_trace(cs, "long", sched, "nofault", "", tx_events(tx), evs, true, ok);
+		if (tr) emit_trace(cs, "long", sched, "nofault", "", tx_events(tx), evs, true, ok, key);
 		if (cs.sample.empty()) cs.sample = J().kv("class", CLS[cls]).kv("mode", md.name()).kv("family", "long").kv("scheduler", sched_name(sched)).kv("messages", (long)sent).kv("feed_steps", rx.feeds).kv("receive_calls", rx.polls)
 		                                         .kv("delivered_link0", (long)rx.got[0].size()).kv("delivered_link1", (long)rx.got[1].size()).kv("delivered_link2", (long)rx.got[2].size()).str();
 	}
@@ -496,6 +496,43 @@ static void case_maxsize(CaseStat &cs, int cls, const Mode &md, Rng &r) {
 		}
 		if (!tx.framing_ok) violation(std::string("C13/") + CLS[cls] + "/wire/framing", "wire bytes are not [IV] (line LF tag)*", J().kv("mode", md.name()).kv("digits", (long)d).str());
 		if (cs.sample.empty() && a1 && d > 2000) cs.sample = J().kv("class", CLS[cls]).kv("mode", md.name()).kv("family", "maxsize").kv("base62_digits", (long)d).kv("accepted", a1).kv("wire_len", (long)W.size()).kv("delivered", (long)rx.got[0].size()).str();
+	}
+}
+
+
+// =================================================================== family 3b: negative integers
+// The statement says "integers": a negative value for which Send returns true belongs to the reference sequence.
+static void case_negative(CaseStat &cs, int cls, const Mode &md, Rng &r) {
+	std::vector<Z> negs;
+	{ Z a(1); mpz_neg(a.v, a.v); negs.push_back(a); }
+	{ Z a(4242424242UL); mpz_neg(a.v, a.v); negs.push_back(a); }
+	{ Z a = z_pow2(256, -1); mpz_neg(a.v, a.v); negs.push_back(a); }
+	{ Z a = z_pow2(256, 0); mpz_neg(a.v, a.v); negs.push_back(a); }
+	{ Z a = z_pow2(256, 1); mpz_neg(a.v, a.v); negs.push_back(a); }
+	{ Z a = z_rand(r, 200); mpz_setbit(a.v, 199); mpz_neg(a.v, a.v); negs.push_back(a); }
+	{ Z a = z_rand(r, 700); mpz_setbit(a.v, 699); mpz_neg(a.v, a.v); negs.push_back(a); }
+	for (size_t i = 0; i < negs.size(); i++) for (int as_array = 0; as_array < 2; as_array++) {
+		Tx tx(cls, md, 1);
+		bool a0 = tx.send(0, scalar(Z(7)));
+		bool a1 = as_array ? tx.send(0, array({Z(3), negs[i]})) : tx.send(0, scalar(negs[i]));
+		bool a2 = tx.send(0, scalar(Z(9)));
+		if (!a0 || !a2) count("send_refused_ordinary");
+		count(a1 ? "negative_accepted" : "negative_refused");
+		if (as_array && !a1) continue;     // a refused array may have left its first element on the wire: not a sequence of accepted items
+		std::vector<TEv> evs; Rx rx(cls, md, 1, aiounicast::aio_scheduler_direct, 0, &tx.plan); rx.ev = &evs;
+		const std::string &W = tx.wire[0]; size_t p = 0;
+		while (p < W.size()) { size_t len = std::min<size_t>(1 + r.below(100), W.size() - p); rx.feed(0, W.data() + p, len); p += len; rx.poll_round(); }
+		rx.drain(); cs.evals++;
+		bool ok = is_prefix_items(rx.got[0], tx.plan[0]) && rx.got[0].size() == tx.plan[0].size();
+		cs.distinct.insert(fnv(W) + i * 2 + (unsigned long)as_array);
+		count(ok ? "negative_delivered_or_refused" : "negative_lost");
+		if (!ok) {
+			violation(std::string("C13/") + CLS[cls] + "/send/negative-accepted-not-delivered", "Send accepted a negative integer that the receiver does not deliver unchanged",
+			          J().kv("class", CLS[cls]).kv("mode", md.name()).kv("value", shorten(negs[i].dec(), 100)).kv("inside_array", as_array != 0).kv("accepted", a1)
+			              .raw("sent", seq_json(tx.plan[0])).raw("received", seq_json(rx.got[0])).kv("wire_hex", shorten(hex((const unsigned char *)W.data(), W.size()), 1200)).str());
+			emit_trace(cs, "negative", aiounicast::aio_scheduler_direct, "nofault", "", tx_events(tx), evs, true, false);
+		}
+		if (cs.sample.empty()) cs.sample = J().kv("class", CLS[cls]).kv("mode", md.name()).kv("family", "negative").kv("value", shorten(negs[i].dec(), 60)).kv("accepted", a1).raw("received", seq_json(rx.got[0])).str();
 	}
 }
 
@@ -536,7 +573,7 @@ static void run_fault_sub(CaseStat &cs, const Tx &tx, const std::vector<TEv> &pr
 		tr = true;
 	}
 	if (tr) emit_trace(cs, fp.kind, aiounicast::aio_scheduler_direct, judge, fault_json(fp.kind, fp.off, fp.aux), pre_ev, evs, true, ok);
-	if (cs.sample.empty() && fp.off > 20) cs.sample = J().kv("class", CLS[tx.cls]).kv("mode", md.name()).kv("family", cs.family).raw("fault", fault_json(fp.kind, fp.off, fp.aux)).kv("region", region).kv("judged_as", judge).kv("sent_values", (long)s.size()).kv("received_values", (long)g.size()).kv("held", ok).str();
+	if (cs.sample.empty() && fp.off > 20 && judge != "none") cs.sample = J().kv("class", CLS[tx.cls]).kv("mode", md.name()).kv("family", cs.family).raw("fault", fault_json(fp.kind, fp.off, fp.aux)).kv("region", region).kv("judged_as", judge).kv("sent_values", (long)s.size()).kv("received_values", (long)g.size()).kv("held", ok).str();
 }
 
 static Seq fault_exchange(Rng &r) {
@@ -583,7 +620,7 @@ static void case_fault_byte(CaseStat &cs, int cls, const Mode &md, int part, Rng
 
 static void case_fault_record(CaseStat &cs, int cls, const Mode &md, Rng &r) {
 	bool quick = ctx.quick();
-	int rounds = quick ? 2 : 8;
+	int rounds = (quick ? 2 : 8) * (md.is_default() ? 4 : 1);   // judged in the default mode only: more rounds there
 	for (int round = 0; round < rounds; round++) {
 		Tx tx(cls, md, 1); Seq ex = fault_exchange(r);
 		for (auto &it : ex) if (!tx.send(0, it)) count("send_refused_ordinary");
@@ -680,6 +717,7 @@ int main(int argc, char **argv) {
 		for (size_t e = 0; e < nex; e++) jobs.push_back(Job{"split", cls, mi, (long)e});
 		for (int s = 0; s < 3; s++) jobs.push_back(Job{"long", cls, mi, s});
 		jobs.push_back(Job{"maxsize", cls, mi, 0});
+		jobs.push_back(Job{"negative", cls, mi, 0});
 		jobs.push_back(Job{"fault-byte", cls, mi, 0}); jobs.push_back(Job{"fault-byte", cls, mi, 1});
 		jobs.push_back(Job{"fault-record", cls, mi, 0});
 		jobs.push_back(Job{"conf", cls, mi, 0});
@@ -695,6 +733,7 @@ int main(int argc, char **argv) {
 		if (jb.family == "split") case_split(cs, jb.cls, md, (size_t)jb.p, wr);
 		else if (jb.family == "long") case_long(cs, jb.cls, md, SCHEDS[jb.p], wr);
 		else if (jb.family == "maxsize") case_maxsize(cs, jb.cls, md, wr);
+		else if (jb.family == "negative") case_negative(cs, jb.cls, md, wr);
 		else if (jb.family == "fault-byte") case_fault_byte(cs, jb.cls, md, (int)jb.p, wr);
 		else if (jb.family == "fault-record") case_fault_record(cs, jb.cls, md, wr);
 		else if (jb.family == "conf") case_conf(cs, jb.cls, md, wr);
